@@ -4,7 +4,9 @@ import (
 	"bytes"
 	"fmt"
 	"math/rand"
+	"os"
 	"runtime"
+	"runtime/debug"
 	"sort"
 	"sync"
 	"sync/atomic"
@@ -80,15 +82,16 @@ type Engine struct {
 	dwell   int64
 	visits  int64
 
-	Checkpoints   int
-	Reconciled    int
-	CloseOrders   map[string]bool
-	deadCASRaces  int64
-	AgeSigs       map[string]bool
-	sigmu         sync.Mutex
-	WalkMaxLevel  int
-	NodesWalked   int64
-	StoreLoads    int
+	Checkpoints  int
+	Reconciled   int
+	CloseOrders  map[string]bool
+	deadCASRaces int64
+	AgeSigs      map[string]bool
+	sigmu        sync.Mutex
+	WalkMaxLevel int
+	NodesWalked  int64
+	StoreLoads   int
+	everyPhase   bool
 }
 
 func (e *Engine) problem(prop, kind, f string, a ...interface{}) {
@@ -127,6 +130,16 @@ func NewEngine(c *rt.C, o EngOpt) *Engine {
 	}
 	for i := 0; i < o.NWriters; i++ {
 		e.ws = append(e.ws, e.db.N.NewWriter())
+	}
+	if e.db.A != nil && o.NKeys <= 64 {
+		// monitor: no node is released while it is still linked at any level
+		st := e.db.N.VerifStore()
+		e.db.A.SetOnFree(func(p unsafe.Pointer, size int) {
+			if lvl := linkedAt(st, p, 100000); lvl >= 0 {
+				fmt.Fprintf(os.Stderr, "MONITOR freed-while-linked block=%p size=%d level=%d\n%s\n", p, size, lvl, debug.Stack())
+				e.problem("C04", "freed-while-linked", "a node (block %p, %d bytes) was released while it is still linked on level %d of the structure", p, size, lvl)
+			}
+		})
 	}
 	return e
 }
@@ -468,10 +481,16 @@ func (e *Engine) checkpoint(where string) {
 	}
 	last := e.db.N.GetLastGCSn()
 	st := e.db.N.VerifStore()
-	w := Walk(st, nitroInsCmp(e.o.KV), nitro.ItemSize, 4*(len(e.versions)+16)*8+1024)
+	w := WalkLive(st, nitroInsCmp(e.o.KV), nitro.ItemSize, 4*(len(e.versions)+16)*8+1024, e.liveFn())
 	e.NodesWalked += int64(w.Level0Linked)
 	if w.MaxLevelSeen > e.WalkMaxLevel {
 		e.WalkMaxLevel = w.MaxLevelSeen
+	}
+	for _, p := range w.NotLive {
+		e.problem("C04", "freed-while-linked", "%s: %s", where, p)
+	}
+	if len(w.NotLive) > 0 {
+		return
 	}
 	for _, p := range w.Problems {
 		e.problem("C14", "structure", "%s: %s", where, p)
@@ -571,7 +590,7 @@ func (e *Engine) Run() {
 		if o.CloseOrder != "keep-all" {
 			e.closeSome(false)
 		}
-		if o.Checkpoints && (ph%3 == 2) {
+		if o.Checkpoints && (ph%3 == 2 || e.everyPhase) {
 			e.checkpoint(fmt.Sprintf("after phase %d", ph))
 		}
 	}
@@ -627,6 +646,9 @@ func (e *Engine) Run() {
 	if e.failed() {
 		return
 	}
+	if e.db.A != nil {
+		e.db.A.SetOnFree(nil) // Close releases linked nodes by design
+	}
 	e.db.N.Close()
 	if e.db.A != nil {
 		e.collectAllocViolations()
@@ -678,4 +700,11 @@ func (e *Engine) Report(mine ...string) {
 	}
 	sort.Strings(cos)
 	c.Sample(map[string]interface{}{"engine": e.o, "snapshots": e.allSn, "close_orders": cos, "scans": e.scans, "checkpoints": e.Checkpoints})
+}
+
+func (e *Engine) liveFn() func(unsafe.Pointer) bool {
+	if e.db.A == nil {
+		return nil
+	}
+	return e.db.A.IsLive
 }
